@@ -631,6 +631,8 @@ def _allow(e):
 def _eq(a, b):
     if a is None or b is None:
         return a is b or (a in (None, []) and b in (None, []))
+    if any(isinstance(x_, str) for x_ in (list(a) if isinstance(a, (list, tuple)) else [a]) + (list(b) if isinstance(b, (list, tuple)) else [b])):
+        return list(a) == list(b) if isinstance(a, (list, tuple)) and isinstance(b, (list, tuple)) else a == b  # identifiers: text, never numbers ("nan", "10")
     try:
         a_, b_ = np.array(a, dtype=float), np.array(b, dtype=float)
         if a_.size == 0 and b_.size == 0:
